@@ -8,77 +8,23 @@
   Model/AbsPos.lean (they all use `perform_child_layout`); here it is treated like `PerformLayout`.
 -/
 import TaffyVerif.Model.Prog
+import TaffyVerif.Model.Leaf
 
 namespace LeafOracle
 variable {α : Type} [Num α]
 
-/-- `AvailableSpace::map_definite_value` -/
-def mapDefinite (a : AvailableSpace α) (f : α → α) : AvailableSpace α :=
-  match a with
-  | .definite v => .definite (f v)
-  | x => x
-
-/-- `compute_leaf_layout(inputs, style, _, measure)` -/
+/-- `compute_leaf_layout(inputs, style, _, measure)`: the leaf model itself (Model/Leaf.lean, tied to leaf.rs by
+Props/TieLeaf.lean and the C19 correspondence).  This file used to carry its own transliteration of leaf.rs, which was not
+brought up to date with the repair 0f21303 (aspect-ratio floor before the min/max clamp): the C11 correspondence showed the
+difference on an absolutely positioned leaf with an aspect ratio and a percentage max-height (model 5.5, implementation 5.0)
+once the case count was scaled by four.  A driver-side helper only: no theorem mentions it. -/
 def leafLayout (st : Style α) (ctx : Option (MeasureSpec α)) (inp : LayoutInput α) : LayoutOutput α :=
-  let kd := inp.knownDimensions
-  let ps := inp.parentSize
-  let margin := Resolve.rectLPAOrZero st.margin ps.width
-  let padding := Resolve.rectLPOrZero st.padding ps.width
-  let border := Resolve.rectLPOrZero st.border ps.width
-  let paddingBorder := Rect.add padding border
-  let pbSum := paddingBorder.sumAxes
-  let bsa : Size α := if st.boxSizing == .contentBox then pbSum else Size.zero
-  let (nodeSize, nodeMin, nodeMax, aspect) : Size (Option α) × Size (Option α) × Size (Option α) × Option α :=
-    match inp.sizingMode with
-    | .contentSize => (kd, Size.none, Size.none, none)
-    | .inherentSize =>
-      let ar := st.aspectRatio
-      let styleSize := Size.of_add (Size.maybeApplyAspectRatio (Resolve.sizeMaybe st.size ps) ar) bsa
-      let styleMin := Size.of_add (Size.maybeApplyAspectRatio (Resolve.sizeMaybe st.minSize ps) ar) bsa
-      let styleMax := Size.of_add (Resolve.sizeMaybe st.maxSize ps) bsa
-      (Size.orOpt kd styleSize, styleMin, styleMax, ar)
-  let gutter : Point α :=
-    ⟨if st.overflow.y == .scroll then st.scrollbarWidth else 0, if st.overflow.x == .scroll then st.scrollbarWidth else 0⟩
-  let cbi : Rect α := { paddingBorder with right := paddingBorder.right + gutter.x, bottom := paddingBorder.bottom + gutter.y }
-  let hasStyles : Bool :=
-    !st.isBlock || st.overflow.x.isScrollContainer || st.overflow.y.isScrollContainer || st.position == .absolute
-      || Num.fgt padding.top 0 || Num.fgt padding.bottom 0 || Num.fgt border.top 0 || Num.fgt border.bottom 0
-      || (match nodeSize.height with | some h => Num.fgt h 0 | none => false)
-      || (match nodeMin.height with | some h => Num.fgt h 0 | none => false)
-  let early : Option (LayoutOutput α) :=
-    if inp.runMode == .computeSize && hasStyles then
-      match nodeSize.width, nodeSize.height with
-      | some w, some h =>
-        let size := Size.fo_max (Size.fo_clamp ⟨w, h⟩ nodeMin nodeMax) (paddingBorder.sumAxes.map some)
-        some { size, contentSize := Size.zero, firstBaselines := ⟨none, none⟩, topMargin := MarginSet.zero,
-               bottomMargin := MarginSet.zero, marginsCanCollapseThrough := false }
-      | _, _ => none
-    else none
-  match early with
-  | some o => o
-  | none =>
-    let avW : AvailableSpace α :=
-      mapDefinite
-        (((MaybeMath.af_sub ((kd.width.map AvailableSpace.definite).getD inp.availableSpace.width)
-            margin.horizontalAxisSum).maybeSet kd.width).maybeSet nodeSize.width)
-        (fun s => MaybeMath.fo_clamp s nodeMin.width nodeMax.width - cbi.horizontalAxisSum)
-    let avH : AvailableSpace α :=
-      mapDefinite
-        (((MaybeMath.af_sub ((kd.height.map AvailableSpace.definite).getD inp.availableSpace.height)
-            margin.verticalAxisSum).maybeSet kd.height).maybeSet nodeSize.height)
-        (fun s => MaybeMath.fo_clamp s nodeMin.height nodeMax.height - cbi.verticalAxisSum)
-    let mKnown : Size (Option α) := match inp.runMode with
-      | .computeSize => kd
-      | _ => Size.none
-    let measured : Size α := match ctx with
-      | some m => m.measure mKnown ⟨avW, avH⟩
-      | none => Size.zero
-    let clamped := Size.fo_clamp (Size.unwrapOr (Size.orOpt kd nodeSize) (Size.add measured cbi.sumAxes)) nodeMin nodeMax
-    let size : Size α :=
-      ⟨clamped.width, Num.fmax clamped.height ((aspect.map fun r => clamped.width / r).getD 0)⟩
-    let size := Size.fo_max size (paddingBorder.sumAxes.map some)
-    { size, contentSize := Size.add measured padding.sumAxes, firstBaselines := ⟨none, none⟩,
-      topMargin := MarginSet.zero, bottomMargin := MarginSet.zero,
-      marginsCanCollapseThrough := !hasStyles && Num.feq size.height 0 && Num.feq measured.height 0 }
+  let measure : Size (Option α) → Size (AvailableSpace α) → Size α :=
+    match ctx with
+    | some m => m.measure
+    | none => fun _ _ => ⟨0, 0⟩
+  match LeafModel.computeLeafLayout inp st measure with
+  | .ok (o, _) => o
+  | .error _ => LayoutOutput.hidden
 
 end LeafOracle
